@@ -153,6 +153,31 @@ func (g *gen) corpus() {
 			s.OpSwap([]ReqProof{rp}, g.outputs(rp.P.Amount, env.ActiveKeysetId()))
 		}
 	}
+	// (2b) a RUNTIME rotation to a keyset with another, non-zero fee: inputs of the new keyset are charged the fee the mint
+	//      publishes for it from the first request on, not only after a restart (seeded change C09-7): a swap that leaves
+	//      no room for the fee must be refused, one that pays it is accepted
+	if env.Opts.FeePpk != 1000 {
+		feeBefore := env.Opts.FeePpk
+		s.OpRotate(1000)
+		if qr := s.OpMintQuote(32, "sat", 0, false); qr != nil {
+			s.Settle(qr)
+			n0 := len(s.proofs)
+			s.OpMint(qr, g.outputs(32, env.ActiveKeysetId()), 0)
+			if len(s.proofs) > n0 {
+				hp := s.proofs[len(s.proofs)-1]
+				for _, c := range s.proofs[n0:] {
+					if c.P.Amount > hp.P.Amount {
+						hp = c
+					}
+				}
+				if hp.P.Amount >= 2 {
+					s.OpSwap([]ReqProof{g.genuine(hp)}, g.outputs(hp.P.Amount, env.ActiveKeysetId()))   // fee unpaid: refused
+					s.OpSwap([]ReqProof{g.genuine(hp)}, g.outputs(hp.P.Amount-1, env.ActiveKeysetId())) // fee of 1 paid
+				}
+			}
+		}
+		s.OpRotate(feeBefore)
+	}
 	// (3) an invoice of somebody else carrying the PAYMENT HASH of one of the mint's own unpaid invoices, for a smaller
 	//     amount: melting it must not settle the mint quote (F17: 1 sat burned, the quote PAID, its whole amount issued)
 	if qv := s.OpMintQuote(128, "sat", 0, false); qv != nil {
@@ -265,6 +290,31 @@ func (g *gen) bigLists() {
 				s.OpMeltLn(mq, build(locked, 999), []string{"succ"}, false)
 			}
 		}
+	}
+	// a request that the STORAGE layer refuses late: the same secret twice, the copies differing in the witness (they are
+	// different structs for CheckDuplicateProofs and pass verification), at positions 129 and 130 of otherwise fresh
+	// inputs. The insert of the second copy fails on the unique key; the request must be refused as a whole - none of the
+	// 129 inputs before it may end up SPENT or locked (seeded change C15-7: multi-row inserts in batches of 128 without an
+	// enclosing transaction). The state check over every secret below sees what was left behind.
+	if len(fresh) >= 1000 {
+		var ps []ReqProof
+		for _, hp := range fresh[870 : 870+129] {
+			ps = append(ps, g.genuine(hp))
+		}
+		twin := g.genuine(fresh[870+128])
+		twin.P.Witness = "{\"signatures\":[\"00\"]}"
+		ps = append(ps, twin)
+		f, _ := s.feeOf(ps)
+		if in := sumReq(ps); in > f+uint64(d) {
+			s.OpSwap(ps, g.outputs(in-f-d, env.ActiveKeysetId()))
+		}
+		if li, err := env.LN.makeInvoice(3000, true); err == nil {
+			s.regExt(li)
+			if mq := s.OpMeltQuote(li, "sat", 0, 0); mq != nil {
+				s.OpMeltLn(mq, ps, []string{"succ"}, false)
+			}
+		}
+		s.c.Hist("corpus", "late storage refusal: twin secret at position 130")
 	}
 	// every secret of the history in one state check (every position at once)
 	all := func() []YQuery {
